@@ -231,3 +231,42 @@ theorem reset_inv (c : Conn) (now : Nat) :
     simp [Conn.markForRecovery, Conn.resetForReconnect, Conn.resetCore, Conn.clearPreRegistration]
 
 end Srtla.Conn
+
+/-! ## Appended (round 2): NAK hit/miss, used by the C02 refinement and the C05 list theorems -/
+namespace Srtla.Conn
+
+/-- `handle_nak` reports a hit exactly when the link holds the number. -/
+theorem nak_snd_iff (c : Conn) (s : Int) (now : Nat) : (c.nak s now).2 = true ↔ s ∈ c.keys := by
+  unfold Conn.nak
+  split
+  · rename_i h
+    have := (any_iff_mem_keys c.log s).mp h
+    simp [this]
+  · rename_i h
+    have : s ∉ c.keys := fun hm => h ((any_iff_mem_keys c.log s).mpr hm)
+    constructor
+    · intro hf; cases hf
+    · intro hm; exact absurd hm this
+
+/-- A NAK for a number the link does not hold leaves the whole record untouched. -/
+theorem nak_fst_of_not_mem (c : Conn) (s : Int) (now : Nat) (h : s ∉ c.keys) : (c.nak s now).1 = c := by
+  have : ¬ (c.log.any (·.1 == s) = true) := fun ha => h ((any_iff_mem_keys c.log s).mp ha)
+  simp only [Conn.nak, if_neg this]
+
+theorem specErase_of_not_mem (k : List Int) (s : Int) (h : s ∉ k) : specErase k s = k := by
+  unfold specErase
+  apply List.filter_eq_self.mpr
+  intro x hx
+  simp only [bne_iff_ne, ne_eq]
+  intro hxs; subst hxs; exact h hx
+
+theorem not_mem_specErase (k : List Int) (s : Int) : s ∉ specErase k s := by
+  unfold specErase
+  intro h
+  simpa using (List.mem_filter.mp h).2
+
+theorem mem_specErase {k : List Int} {s x : Int} : x ∈ specErase k s ↔ x ∈ k ∧ x ≠ s := by
+  unfold specErase
+  simp [List.mem_filter]
+
+end Srtla.Conn
